@@ -370,7 +370,13 @@ func trial(t *testing.T, r *vh.Run, w *world, ck string, rnd *vh.Rand, bubble bo
 			// no sequential first login: the first operation of every goroutine is a login, so that the first AS exchanges
 			// (pre-authentication negotiation) run concurrently
 		} else if err := cl.Login(); err != nil {
-			r.Violation("C11|initial-login-failed", "login of the shared client failed: "+err.Error(), map[string]any{"case": ck})
+			if strings.Contains(err.Error(), "Networking_Error") {
+				// the sequential first login against the loopback KDC ran into the library's own real-time limits (a loaded
+				// machine): nothing concurrent has happened yet, and transport failures are C12's subject - the trial is skipped
+				r.Inc("observe_initial_login_networking_error_trial_skipped")
+			} else {
+				r.Violation("C11|initial-login-failed", "login of the shared client failed: "+err.Error(), map[string]any{"case": ck})
+			}
 			close(stop)
 			<-tickDone
 			return
